@@ -125,3 +125,4 @@ def witness_case(f, c):
         c.expect = ok(d)
         c.model = False
     return c
+MODES = ["hexenc", "a85enc", "hexdec", "a85dec"]
